@@ -106,6 +106,10 @@ def _one_patch(patch, prop, name, workers):
             envx['VERIF_WORKERS'] = str(workers)
         if prop == 'NEG':
             alarms = []
+            if os.environ.get('VERIF_NEG_SCALE'):
+                # (a full-size run of all nine checks per control takes
+                # twenty minutes; the scale used is recorded in the result)
+                envx['VERIF_SCALE'] = os.environ['VERIF_NEG_SCALE']
             for check in CHECKS:
                 rc, out = _run_check(check, envx)
                 if rc != 0:
@@ -118,7 +122,8 @@ def _one_patch(patch, prop, name, workers):
                 'ALARM %r' % alarms, time.time() - t0))
             sys.stdout.flush()
             return {'mutant': name, 'kind': 'negative', 'ok': ok,
-                    'alarms': alarms}
+                    'alarms': alarms,
+                    'scale': os.environ.get('VERIF_NEG_SCALE', '1')}
         rc, out = _run_check(prop, envx)
         vio = [ln for ln in out.splitlines() if ln.startswith('VIOLATION')]
         ok = rc == 1 and bool(vio)
